@@ -179,8 +179,10 @@ func (cw *chunkedWriter) Close() error {
 }
 
 func parseHexUint(v []byte) (n uint64, err error) {
-	for _, b := range v {
-		n <<= 4
+	if len(v) == 0 {
+		return 0, errors.New("empty hex number for chunk length")
+	}
+	for i, b := range v {
 		switch {
 		case '0' <= b && b <= '9':
 			b -= '0'
